@@ -350,7 +350,7 @@ theorem leaderOk_of_marker (o : Bool) (n : Nat) (mk : Char) (h : markerOk o n mk
   cases o with
   | false =>
     simp only [markerOk, Bool.false_eq_true, if_false, Bool.or_eq_true, beq_iff_eq] at h
-    rcases h with (rfl | rfl) | rfl <;> decide
+    rcases h with (rfl | rfl) | rfl <;> rfl
   | true =>
     simp only [markerOk, if_true, Bool.and_eq_true, decide_eq_true_eq] at h
     obtain ⟨a, b, c⟩ := natDigits_shape n h.1
